@@ -355,4 +355,39 @@ fn shift_step_lr(self_: &Parser, state_id: StIdx<$T>, laidx0: usize, pstack: &mu
     }
     laidx
 }
+
+// lr_upto's shift arm: the lexeme shifted is the inserted one (lexeme_prefix) if given, else the
+// next real lexeme; value stack and span stack must both receive *that* lexeme.
+pub open spec fn shifted_(p: &Parser, prefix: Option<LexemeT>, laidx: int) -> LexemeT { match prefix { Some(l) => l, None => p.snext(laidx) } }
+fn shift_step_upto(self_: &Parser, state_id: StIdx<$T>, lexeme_prefix: Option<LexemeT>, laidx0: usize, pstack: &mut Vec<StIdx<$T>>, astack_uw: &mut AStack, spans_uw: &mut Vec<Span>, Ghost(d): Ghost<Derived>) -> (laidx: usize)
+    requires laidx0 < usize::MAX, spans_inv(old(spans_uw)@, d),
+        pos_before(d, d.len() as int) <= shifted_(self_, lexeme_prefix, laidx0 as int).sspan().st <= shifted_(self_, lexeme_prefix, laidx0 as int).sspan().en,
+    ensures
+        laidx == laidx0 + 1, // OBL: C08.upto.shift_consumes_one_lexeme
+        final(pstack)@ == old(pstack)@.push(state_id), // OBL: C08.upto.shift_pushes_target_state
+        final(astack_uw).vals() == old(astack_uw).vals().push(AStackType::Lexeme(shifted_(self_, lexeme_prefix, laidx0 as int))) && final(astack_uw).log() == old(astack_uw).log(), // OBL: C08.upto.shift_pushes_the_lexeme_and_calls_no_action
+        final(spans_uw)@ == old(spans_uw)@.push(shifted_(self_, lexeme_prefix, laidx0 as int).sspan()), // OBL: C08.upto.shift_pushes_the_span_of_the_lexeme_it_pushes
+        spans_inv(final(spans_uw)@, d.push(Some((shifted_(self_, lexeme_prefix, laidx0 as int).sspan().st as int, shifted_(self_, lexeme_prefix, laidx0 as int).sspan().en as int)))), // OBL: C08.upto.stack_spans_stay_consistent.shift
+{
+    //@probe
+    let mut laidx = laidx0;
+    //@body file=lrpar/src/lib/parser.rs fn=lr_upto block=`Action::Shift\(state_id\) => \{` through=brace
+    //@rule n=* `\bself\.` => `self_.`
+    //@rule n=1 `^\s*Action::Shift\(state_id\) => \{` => `{`
+    //@rule n=1 `if let Some\(ref mut astack_uw\) = \*astack \{ if let Some\(spans_uw\) = spans \{` => `{ {`
+    //@endbody
+    proof {
+        reveal(spans_inv);
+        let sp = shifted_(self_, lexeme_prefix, laidx0 as int).sspan();
+        let d2 = d.push(Some((sp.st as int, sp.en as int)));
+        assert forall|i: int| 0 <= i < d2.len() implies match #[trigger] d2[i] {
+                Some(p) => spans_uw@[i].st == p.0 && spans_uw@[i].en == p.1 && pos_before(d2, i) <= p.0 <= p.1,
+                None => spans_uw@[i].st == pos_before(d2, i) && spans_uw@[i].en == pos_before(d2, i),
+            } by {
+            lemma_prefix_ext(d, d2, 0, i);
+            if i < d.len() { assert(d2[i] == d[i]); assert(d[i] is Some || d[i] is None); }
+        }
+    }
+    laidx
+}
 //@use prelude/tail.rs
